@@ -19,7 +19,7 @@ REQUIRED = ["no_loss", "admitted_by_commit", "only_admitted_delivered", "not_adm
             "restart_redelivers", "delivered_at_least_once", "eventual_delivery", "eventual_delivery_from_start", "failed_visible",
             "completed_or_visible", "parked_witness",
             "fact_retry_constants", "fact_retry_arithmetic", "fact_retry_backoff", "fact_notifyNow_retries",
-            "fact_run_replays_every_job", "fact_failed_events_threshold", "fact_save_in_write_tx_notify_after_commit",
+            "fact_run_replays_every_job", "fact_save_only_new_events", "fact_failed_events_threshold", "fact_save_in_write_tx_notify_after_commit",
             "fact_writePayload_skips_stored_payload", "fact_write_back_skips_removed_event", "fact_payload_handler_sequence", "fact_registrations"]
 
 
